@@ -284,7 +284,7 @@ import sf
 ob(name='guards.clause_type_state', kind='FC', props=['C19'], unit=None, run=sf.run_guards,
    bound='none: every valuation of the abstract clause type-state (25 flags/bounds); 28 static_assert conditions of times/runtime_times/in_sequence/sideeffect/handle_return/handle_throw/operator+/lifetime in_sequence')
 ob(name='forms.compile_time_forms', kind='SF', props=['C19'], unit=None, run=sf.run_forms,
-   bound='exact for the 22 misuse forms and 19 legal forms listed in specs/c19_forms.py, g++ 12 -std=c++14 (thorough: +17); other forms are covered only through the guard conditions')
+   bound='exact for the 24 misuse forms and 19 legal forms listed in specs/c19_forms.py, g++ 12 -std=c++14 (thorough: +17); other forms are covered only through the guard conditions')
 ob(name='macros.long_macros_prefix', kind='SF', props=['C19'], unit=None, run=sf.run_macros,
    bound='exact for the configuration compiled: trompeloeil.hpp, -std=c++14 (thorough: +17, +20); framework adapter headers not included (their frameworks are not installed)')
 LEVELS['C19'] = 'proof'
